@@ -94,7 +94,10 @@ def linearize(e, subst=None, ren=None):
         # MIN / MAX are handled by the callers that know them; opaque here
         return Lin({key(e, ren): 1})
     if k in ("member", "sub", "call", "un", "sizeof"):
-        return Lin({key(e, ren): 1})
+        kk = key(e, ren)
+        if subst and kk in subst:
+            return subst[kk]
+        return Lin({kk: 1})
     return None
 
 
@@ -123,6 +126,8 @@ def cmp_constraints(cond, truth, subst=None, ren=None):
             return [a - b]
         if op == "==":
             return [a - b, b - a]
+        if op == "!=":
+            return [("ne", a - b)]
         return []
     if cond["k"] == "bin" and cond["op"] == "&&" and truth:
         return cmp_constraints(cond["l"], True, subst, ren) + cmp_constraints(cond["r"], True, subst, ren)
@@ -136,7 +141,16 @@ def cmp_constraints(cond, truth, subst=None, ren=None):
 
 
 def feasible(cons):
-    """Fourier-Motzkin: is the conjunction of  L >= 0  satisfiable over the rationals?"""
+    """Fourier-Motzkin: is the conjunction of  L >= 0  (and integer disequalities
+    ("ne", L): L != 0, split into L >= 1 or L <= -1) satisfiable over the rationals?"""
+    nes = [c for c in cons if isinstance(c, tuple)]
+    if nes:
+        rest = [c for c in cons if not isinstance(c, tuple)]
+        ne, others = nes[0][1], nes[1:]
+        if len(nes) > 6:
+            others = []      # ignore further disequalities (weaker hypotheses: still sound)
+        return feasible(rest + others + [ne - Lin(k=1)]) or \
+            feasible(rest + others + [ne.scale(-1) - Lin(k=1)])
     cons = [Lin(c.c, c.k) for c in cons]
     atoms = set()
     for c in cons:
